@@ -113,8 +113,23 @@ class SeqV(V):
     """A list of symbolic length: z3 array Int -> elem and a length term. Mutable holder."""
     kind = "list"
 
-    def __init__(self, arr: Any, n: Any, et: ElemType) -> None:
-        self.arr, self.n, self.et = arr, n, et
+    def __init__(self, arr: Any, n: Any, et: ElemType, off: Any = 0) -> None:
+        self.arr, self.n, self.et, self.off = arr, n, et, off
+
+    def sel(self, index: Any) -> Any:
+        """element term at position index (views share the base array at an offset)"""
+        if isinstance(self.off, int) and self.off == 0:
+            return z3.Select(self.arr, index)
+        return z3.Select(self.arr, z3.simplify(index + self.off))
+
+    def put(self, index: Any, term: Any) -> None:
+        if isinstance(self.off, int) and self.off == 0:
+            self.arr = z3.Store(self.arr, index, term)
+        else:
+            self.arr = z3.Store(self.arr, z3.simplify(index + self.off), term)
+
+    def clone(self) -> "SeqV":
+        return SeqV(self.arr, self.n, self.et, self.off)
 
     def __repr__(self) -> str:
         return f"SeqV(len={self.n})"
@@ -152,6 +167,7 @@ class DictV(V):
         self.entries = list(entries) if entries is not None else None
         self.keys, self.vals, self.vt = keys, vals, vt
         self.default_factory = default_factory
+        self.total = False
 
     def __repr__(self) -> str:
         return f"DictV({self.entries!r})" if self.entries is not None else "DictV(sym)"
